@@ -365,11 +365,11 @@ func c45RoutesJSON(masks map[string]uint) map[string][]string {
 // ---------- enumeration ----------
 
 type c45Family struct {
-	name     string
-	texts    []int    // per-element text alphabet (indices into c45Texts)
-	attrs    []bool   // per-element attribute alphabet
-	subsets  []uint   // per-present-name route-subset alphabet (nil => use global configs)
-	global   []string // global config generators when subsets == nil
+	name    string
+	texts   []int    // per-element text alphabet (indices into c45Texts)
+	attrs   []bool   // per-element attribute alphabet
+	subsets []uint   // per-present-name route-subset alphabet (nil => use global configs)
+	global  []string // global config generators when subsets == nil
 }
 
 type c45Job struct {
